@@ -156,43 +156,48 @@ def run(tier):
                 ck.ob("V3-" + nm, "%s(%s)" % (nm, a), got == ("const", 1 if a in truth else 0), "%s(%s) evaluates to %s" % (nm, a, got))
 
     # ---- V4: compare_layouts ---------------------------------------------------------------------
-    fn = fns.get("cglue::trait_group::compare_layouts")
-    if ck.require(fn is not None, "compare_layouts"):
-        E, F = ("sym", "expected"), ("sym", "found")
+    cl_log = facts.cfg_cglue(features="layout_checks,log")
+    ck.unit("cglue lib (layout_checks,log)")
+    fns_log = {f_["path"]: f_ for f_ in cl_log.fns("cglue-lib")}
+    ev_log = sem.Evaluator(fns_log, {a["path"]: a for a in cl_log.adts("cglue-lib")}, inline=lambda p: p.startswith(("cglue::", "<cglue::")) or "::{closure" in p)
+    for cfg_label, fns_c, ev in (("", fns, ev), ("+log", fns_log, ev_log)):
+      fn = fns_c.get("cglue::trait_group::compare_layouts")
+      if ck.require(fn is not None, "compare_layouts" + cfg_label):
+          E, F = ("sym", "expected"), ("sym", "found")
 
-        def opt(x):
-            return ("agg", "adt", "std::option::Option", "Some", (x,)) if x is not None else ("agg", "adt", "std::option::Option", "None", ())
-        n_cmp_sites = len([1 for _, t in mir.Body(fn).calls() if "check_layout_compatibility" in (mir.callee_path(t) or "")])
-        ck.ob("V4-one-comparison", "compare_layouts", n_cmp_sites == 1, "compare_layouts must call abi_stable's comparison at exactly one site (found %d)" % n_cmp_sites)
-        for e in (None, E):
-            for f_ in (None, F):
-                outs = ev.run(fn, [opt(e), opt(f_)])
-                label = "compare(%s,%s" % ("Some" if e else "None", "Some" if f_ else "None")
-                if not (e and f_):
-                    got = verdict(outs)
-                    cmp_calls = [c for o in outs for c in o.calls("check_layout_compatibility")]
-                    for r in ("Ok", "Err"):
-                        ck.ob("V4-verdict-table", "%s,%s)" % (label, r), got == ("variant", "Unknown") and not cmp_calls,
-                              "compare_layouts with a missing description yields %s (comparison called: %s); must be Unknown without comparing" % (got, bool(cmp_calls)),
-                              sample={"expected": bool(e), "found": bool(f_), "verdict": "Unknown"})
-                    continue
-                seen = {}
-                order_ok = True
-                for o in outs:
-                    cc = o.calls("check_layout_compatibility")
-                    if o.kind != "ret" or len(cc) != 1:
-                        seen["?"] = repr(o)[:160]
-                        continue
-                    order_ok = order_ok and sem.strip(cc[0][2][0]) == E and sem.strip(cc[0][2][1]) == F
-                    rs = [c[2] for c in o.conds if c[0] == "discr" and sem.contains(c[1], lambda x: x[0] == "call" and "check_layout_compatibility" in x[1])]
-                    r = sem.strip(o.ret)
-                    seen.setdefault(rs[0] if rs else "?", set()).add(r[3] if r[0] == "agg" else sem.fmt(r))
-                ck.ob("V4-argument-order", "compare_layouts", order_ok, "compare_layouts does not pass (expected, found) to the comparison in that order",
-                      sample={"args": ["expected", "found"]})
-                for r, want in (("Ok", "Valid"), ("Err", "Invalid")):
-                    ck.ob("V4-verdict-table", "%s,%s)" % (label, r), seen.get(r) == {want} and "?" not in seen,
-                          "compare_layouts(Some, Some) with comparison result %s yields %s; must be %s" % (r, seen.get(r) or seen.get("?"), want),
-                          sample={"expected": True, "found": True, "cmp": r, "verdict": want})
+          def opt(x):
+              return ("agg", "adt", "std::option::Option", "Some", (x,)) if x is not None else ("agg", "adt", "std::option::Option", "None", ())
+          pass
+          for e in (None, E):
+              for f_ in (None, F):
+                  outs = ev.run(fn, [opt(e), opt(f_)])
+                  label = "compare%s(%s,%s" % (cfg_label, "Some" if e else "None", "Some" if f_ else "None")
+                  if not (e and f_):
+                      got = verdict(outs)
+                      cmp_calls = [c for o in outs for c in o.calls("check_layout_compatibility")]
+                      for r in ("Ok", "Err"):
+                          ck.ob("V4-verdict-table", "%s,%s)" % (label, r), got == ("variant", "Unknown") and not cmp_calls,
+                                "compare_layouts with a missing description yields %s (comparison called: %s); must be Unknown without comparing" % (got, bool(cmp_calls)),
+                                sample={"expected": bool(e), "found": bool(f_), "verdict": "Unknown"})
+                      continue
+                  seen = {}
+                  order_ok = True
+                  for o in outs:
+                      cc = o.calls("check_layout_compatibility")
+                      if o.kind != "ret" or len(cc) != 1:
+                          seen["?"] = repr(o)[:160]
+                          continue
+                      order_ok = order_ok and sem.strip(cc[0][2][0]) == E and sem.strip(cc[0][2][1]) == F
+                      rs = [c[2] for c in o.conds if c[0] == "discr" and sem.contains(c[1], lambda x: x[0] == "call" and "check_layout_compatibility" in x[1])]
+                      r = sem.strip(o.ret)
+                      seen.setdefault(rs[0] if rs else "?", set()).add(r[3] if r[0] == "agg" else sem.fmt(r))
+                  ck.ob("V4-one-comparison", "compare_layouts" + cfg_label, "?" not in seen, "compare_layouts(Some, Some) must call abi_stable's comparison exactly once in every case: %s" % seen.get("?"))
+                  ck.ob("V4-argument-order", "compare_layouts" + cfg_label, order_ok, "compare_layouts does not pass (expected, found) to the comparison in that order",
+                        sample={"args": ["expected", "found"]})
+                  for r, want in (("Ok", "Valid"), ("Err", "Invalid")):
+                      ck.ob("V4-verdict-table", "%s,%s)" % (label, r), seen.get(r) == {want} and "?" not in seen,
+                            "compare_layouts(Some, Some) with comparison result %s yields %s; must be %s" % (r, seen.get(r) or seen.get("?"), want),
+                            sample={"expected": True, "found": True, "cmp": r, "verdict": want})
     fn = fns.get(VL + "::check")
     if ck.require(fn is not None, "VerifyLayout::check"):
         body = mir.Body(fn)
